@@ -518,6 +518,11 @@ func (ip *Interp) query(extra *Term) (Result, Model) {
 		res, m = ce.res, ce.m
 		ip.qhits++
 	} else {
+		if ip.run.stopped() {
+			// the run has been stopped (fail-fast, path cap or deadline): do not
+			// start further solver work on this path
+			panic(pathEnd{Kind: "stop", Msg: "run stopped"})
+		}
 		res, m = ip.sv.Check(asserts)
 		if res != Unknown {
 			if ip.qcache == nil || len(ip.qcache) > 200000 {
@@ -1025,6 +1030,22 @@ func (ip *Interp) RunJob(job *Job) {
 		r.push(p.spawned)
 	}
 	ip.path = nil
+}
+
+func (r *Run) stopped() bool {
+	r.mu.Lock()
+	defer r.mu.Unlock()
+	if !r.stop {
+		if r.FailFast > 0 && !r.firstViol.IsZero() && time.Since(r.firstViol) > 90*time.Second {
+			r.stop = true
+			r.UnknownMsgs["exploration stopped 90 s after the first violation candidate"]++
+		} else if !r.Deadline.IsZero() && time.Now().After(r.Deadline) {
+			r.stop = true
+			r.TimedOut = true
+			r.UnknownMsgs["wall-clock deadline reached with unexplored paths"]++
+		}
+	}
+	return r.stop
 }
 
 func (ip *Interp) findHarness(cfg *HarnessConfig) *ssa.Function {
